@@ -121,6 +121,16 @@ def fold_numeric(expr, subst, _depth=0, dyadic=False):
       for o, cpr in zip(n.ops, n.comparators):
         if isinstance(o, (ast.In, ast.NotIn)):
           box = None
+          if isinstance(cpr, ast.Call) and dotted(cpr.func) == 'range' and 1 <= len(cpr.args) <= 3 and not cpr.keywords:
+            rargs = [ev(a_, env, depth) for a_ in cpr.args]
+            if not all(isinstance(a_, int) and not isinstance(a_, bool) for a_ in rargs) or (len(rargs) == 3 and rargs[2] == 0):
+              raise ValueError
+            box = range(*rargs)
+            v_ = vals[-1]
+            inside = (Fraction(v_).denominator == 1 and int(v_) in box) if not isinstance(v_, bool) and v_ is not NONE else False
+            if inside != isinstance(o, ast.In):
+              return False
+            continue
           if isinstance(cpr, (ast.Tuple, ast.List, ast.Set, ast.Dict)):
             box = ast.literal_eval(cpr)
           elif isinstance(cpr, (ast.Name, ast.Attribute)):
